@@ -151,3 +151,515 @@ Proof.
   intros H. exists (firstn n l), (skipn n l). rewrite firstn_skipn, firstn_length, skipn_length.
   split; [reflexivity | lia].
 Qed.
+
+(** * The two parsers on inputs cut into fields *)
+Lemma hash_size_pos sha3 alg sz : hash_size sha3 alg = Some sz -> sz <> 0%nat.
+Proof.
+  unfold hash_size. repeat (destruct (_ =? _)); try destruct sha3; intros E; inversion E; lia.
+Qed.
+
+(** the hash-dependent tail of parsePolicy2 *)
+Definition finish2 (sha3 : bool) (ver alg pt sinit : Z) (drc : list Z) (pc ms res hm sm r2 : Z) (l : list Z) : outcome policy2 :=
+  match hash_size sha3 alg with
+  | None => Err E_HASHALG
+  | Some sz =>
+      let mk h := Ok (MkP2 ver alg pt sinit drc pc ms res hm sm r2 (fix_len 32 h)) in
+      match read_n sz l with
+      | Ok (h, _) => mk h
+      | Err c => if c =? E_EOF then mk (repeat 0 sz) else Err c
+      | Panic => Panic
+      | OutOfFuel => OutOfFuel
+      end
+  end.
+
+Lemma parse2_header sha3 a1 a2 a3 a4 a5 a6 a7 a8 a9 a10 a11 tail :
+  length a1 = 2%nat -> length a2 = 2%nat -> length a3 = 1%nat -> length a4 = 1%nat ->
+  length a5 = 16%nat -> length a6 = 4%nat -> length a7 = 1%nat -> length a8 = 1%nat ->
+  length a9 = 2%nat -> length a10 = 4%nat -> length a11 = 4%nat ->
+  parse2 sha3 (a1 ++ a2 ++ a3 ++ a4 ++ a5 ++ a6 ++ a7 ++ a8 ++ a9 ++ a10 ++ a11 ++ tail) =
+  finish2 sha3 (le_dec a1) (le_dec a2) (le_dec a3) (le_dec a4) (dec16s a5) (le_dec a6) (le_dec a7)
+          (le_dec a8) (le_dec a9) (le_dec a10) (le_dec a11) tail.
+Proof.
+  intros. unfold parse2.
+  repeat (first [rewrite rd_u_app by (assumption || discriminate) | rewrite read_n_app by (assumption || discriminate)]; cbn [bind]).
+  reflexivity.
+Qed.
+
+Lemma parse1_app a1 a2 a3 a4 a5 a6 a7 a8 a9 a10 a11 h rest :
+  length a1 = 2%nat -> length a2 = 1%nat -> length a3 = 1%nat -> length a4 = 1%nat ->
+  length a5 = 1%nat -> length a6 = 16%nat -> length a7 = 4%nat -> length a8 = 1%nat ->
+  length a9 = 1%nat -> length a10 = 2%nat -> length a11 = 4%nat -> length h = 20%nat ->
+  parse1 (a1 ++ a2 ++ a3 ++ a4 ++ a5 ++ a6 ++ a7 ++ a8 ++ a9 ++ a10 ++ a11 ++ h ++ rest) =
+  Ok (MkP1 (le_dec a1) (le_dec a2) (le_dec a3) (le_dec a4) (le_dec a5) (dec16s a6) (le_dec a7)
+           (le_dec a8) (le_dec a9) (le_dec a10) (le_dec a11) h).
+Proof.
+  intros. unfold parse1.
+  repeat (first [rewrite rd_u_app by (assumption || discriminate) | rewrite read_n_app by (assumption || discriminate)]; cbn [bind]).
+  reflexivity.
+Qed.
+
+Lemma finish2_full sha3 ver alg pt sinit drc pc ms res hm sm r2 h rest sz :
+  hash_size sha3 alg = Some sz -> length h = sz ->
+  finish2 sha3 ver alg pt sinit drc pc ms res hm sm r2 (h ++ rest) =
+  Ok (MkP2 ver alg pt sinit drc pc ms res hm sm r2 (fix_len 32 h)).
+Proof.
+  intros Hs Hl. unfold finish2. rewrite Hs.
+  rewrite read_n_app by (assumption || eapply hash_size_pos; eassumption). reflexivity.
+Qed.
+
+Lemma finish2_short sha3 ver alg pt sinit drc pc ms res hm sm r2 l sz :
+  hash_size sha3 alg = Some sz -> l <> [] -> (length l < sz)%nat ->
+  finish2 sha3 ver alg pt sinit drc pc ms res hm sm r2 l = Err E_UEOF.
+Proof.
+  intros Hs Hl Hn. unfold finish2. rewrite Hs, read_n_short by assumption. reflexivity.
+Qed.
+
+(** [ParsePolicy] dispatch on inputs that start with a 2-byte version *)
+Lemma parse_dispatch sha3 a1 r : length a1 = 2%nat ->
+  parse sha3 (a1 ++ r) =
+    if le_dec a1 <=? LCPPolicyVersion2 then bind (parse1 (a1 ++ r)) (fun p => Ok (inl p))
+    else if le_dec a1 >=? LCPPolicyVersion3 then bind (parse2 sha3 (a1 ++ r)) (fun p => Ok (inr p))
+    else Err E_CANTPARSE.
+Proof. intros. unfold parse. rewrite rd_u_app by (assumption || discriminate). reflexivity. Qed.
+
+(** * Well-formedness *)
+(** of a policy struct (the Go types guarantee the ranges; the last clauses are the content) *)
+Definition wf_policy1 (p : policy1) : Prop :=
+  u16 (p1_version p) /\ byte (p1_hashalg p) /\ byte (p1_ptype p) /\ byte (p1_sinit p) /\
+  byte (p1_reserved p) /\ Forall u16 (p1_drc p) /\ length (p1_drc p) = 8%nat /\ u32 (p1_pc p) /\
+  byte (p1_maxsinit p) /\ byte (p1_res1 p) /\ u16 (p1_res2 p) /\ u32 (p1_res3 p) /\
+  Forall byte (p1_hash p) /\ length (p1_hash p) = 20%nat /\
+  p1_version p <= LCPPolicyVersion2.
+
+Definition in_range2 (p : policy2) : Prop :=
+  u16 (p2_version p) /\ u16 (p2_hashalg p) /\ byte (p2_ptype p) /\ byte (p2_sinit p) /\
+  Forall u16 (p2_drc p) /\ length (p2_drc p) = 8%nat /\ u32 (p2_pc p) /\ byte (p2_maxsinit p) /\
+  byte (p2_reserved p) /\ u16 (p2_hmask p) /\ u32 (p2_smask p) /\ u32 (p2_res2 p) /\
+  Forall byte (p2_hash p) /\ length (p2_hash p) = 32%nat.
+
+(* digest length by TPM_ALG_ID for the algorithms the tool offers *)
+Definition digest_len (alg : Z) : option nat :=
+  if alg =? AlgSHA1 then Some 20%nat else if alg =? AlgSHA256 then Some 32%nat
+  else if alg =? AlgSHA384 then Some 48%nat else None.
+
+(* a v3 policy whose digest fits the PolicyHash field: SHA1 (zero padded) or SHA256 *)
+Definition wf_policy2 (p : policy2) : Prop :=
+  in_range2 p /\ LCPPolicyVersion3 <= p2_version p /\
+  (p2_hashalg p = AlgSHA256 \/ (p2_hashalg p = AlgSHA1 /\ skipn 20 (p2_hash p) = repeat 0 12)).
+
+(* a v3 policy that names SHA384 (the struct can only hold 32 of the 48 digest bytes) *)
+Definition wf_policy2_sha384 (p : policy2) : Prop :=
+  in_range2 p /\ LCPPolicyVersion3 <= p2_version p /\ p2_hashalg p = AlgSHA384.
+
+(** of a serialized policy, as a boolean *)
+Definition ver_of (b : list Z) : Z := le_dec (firstn 2 b).
+Definition alg_of (b : list Z) : Z := le_dec (firstn 2 (skipn 2 b)).
+Definition wf_bytes_v2 (b : list Z) : bool :=
+  forallb byteb b && (length b =? 54)%nat && (ver_of b <=? LCPPolicyVersion2).
+Definition wf_bytes_v3 (b : list Z) : bool :=
+  forallb byteb b && (length b =? 70)%nat && (LCPPolicyVersion3 <=? ver_of b) &&
+  ((alg_of b =? AlgSHA256) || ((alg_of b =? AlgSHA1) && forallb (Z.eqb 0) (skipn 58 b))).
+Definition wf_bytes_v3_sha384 (b : list Z) : bool :=
+  forallb byteb b && (length b =? 70)%nat && (LCPPolicyVersion3 <=? ver_of b) && (alg_of b =? AlgSHA384).
+
+(** * parse (encode p) = p *)
+Lemma parse_encode1 sha3 p : wf_policy1 p -> parse sha3 (encode1 p) = Ok (inl p).
+Proof.
+  destruct p as [ver alg pt si res drc pc ms r1 r2 r3 h].
+  unfold wf_policy1; cbn [p1_version p1_hashalg p1_ptype p1_sinit p1_reserved p1_drc p1_pc p1_maxsinit p1_res1 p1_res2 p1_res3 p1_hash].
+  intros (Hver & Halg & Hpt & Hsi & Hres & Hdrc & Ldrc & Hpc & Hms & Hr1 & Hr2 & Hr3 & Hh & Lh & Hv).
+  unfold encode1; cbn [p1_version p1_hashalg p1_ptype p1_sinit p1_reserved p1_drc p1_pc p1_maxsinit p1_res1 p1_res2 p1_res3 p1_hash].
+  rewrite (fix_len_id 8 drc), (fix_len_id 20 h) by assumption.
+  rewrite parse_dispatch by apply le_enc_length.
+  rewrite le_dec_enc2 by assumption.
+  destruct (ver <=? LCPPolicyVersion2) eqn:E; [|lia].
+  rewrite <- (app_nil_r h) at 1.
+  rewrite (parse1_app _ _ _ _ _ _ _ _ _ _ _ h []); try apply le_enc_length; try assumption; try reflexivity;
+    [| rewrite enc16s_length; lia].
+  cbn [bind].
+  rewrite !le_dec_enc1, !le_dec_enc2, !le_dec_enc4, dec16s_enc16s by assumption.
+  reflexivity.
+Qed.
+
+Ltac p2_fields := cbn [p2_version p2_hashalg p2_ptype p2_sinit p2_drc p2_pc p2_maxsinit p2_reserved p2_hmask p2_smask p2_res2 p2_hash].
+
+(* parse of encode2 p, up to the hash-dependent tail *)
+Lemma parse_encode2_header sha3 p : in_range2 p -> LCPPolicyVersion3 <= p2_version p ->
+  parse sha3 (encode2 p) =
+  bind (finish2 sha3 (p2_version p) (p2_hashalg p) (p2_ptype p) (p2_sinit p) (p2_drc p) (p2_pc p)
+          (p2_maxsinit p) (p2_reserved p) (p2_hmask p) (p2_smask p) (p2_res2 p) (p2_hash p))
+       (fun q => Ok (inr q)).
+Proof.
+  destruct p as [ver alg pt si drc pc ms res hm sm r2 h].
+  unfold in_range2; p2_fields.
+  intros (Hver & Halg & Hpt & Hsi & Hdrc & Ldrc & Hpc & Hms & Hres & Hhm & Hsm & Hr2 & Hh & Lh) Hv.
+  unfold encode2; p2_fields.
+  rewrite (fix_len_id 8 drc), (fix_len_id 32 h) by assumption.
+  rewrite parse_dispatch by apply le_enc_length.
+  rewrite le_dec_enc2 by assumption.
+  destruct (ver <=? LCPPolicyVersion2) eqn:E; [unfold LCPPolicyVersion2, LCPPolicyVersion3 in *; lia|].
+  destruct (ver >=? LCPPolicyVersion3) eqn:E3; [|lia].
+  rewrite parse2_header; try apply le_enc_length; [| rewrite enc16s_length; lia].
+  rewrite !le_dec_enc1, !le_dec_enc2, !le_dec_enc4, dec16s_enc16s by assumption.
+  reflexivity.
+Qed.
+
+Lemma finish2_fits sha3 ver alg pt si drc pc ms res hm sm r2 h : length h = 32%nat ->
+  (alg = AlgSHA256 \/ (alg = AlgSHA1 /\ skipn 20 h = repeat 0 12)) ->
+  finish2 sha3 ver alg pt si drc pc ms res hm sm r2 h = Ok (MkP2 ver alg pt si drc pc ms res hm sm r2 h).
+Proof.
+  intros Lh [-> | [-> Htail]].
+  - rewrite <- (app_nil_r h) at 1.
+    rewrite (finish2_full sha3 _ _ _ _ _ _ _ _ _ _ _ h [] 32); [| reflexivity | assumption].
+    rewrite fix_len_id by assumption. reflexivity.
+  - rewrite <- (firstn_skipn 20 h) at 1.
+    rewrite (finish2_full sha3 _ _ _ _ _ _ _ _ _ _ _ (firstn 20 h) (skipn 20 h) 20);
+      [| reflexivity | rewrite firstn_length; lia].
+    rewrite fix_len_pad by (rewrite firstn_length; lia).
+    rewrite firstn_length. replace (32 - Nat.min 20 (length h))%nat with 12%nat by lia.
+    rewrite <- Htail, firstn_skipn. reflexivity.
+Qed.
+
+Lemma parse_encode2 sha3 p : wf_policy2 p -> parse sha3 (encode2 p) = Ok (inr p).
+Proof.
+  intros (Hr & Hv & Halg). rewrite parse_encode2_header by assumption.
+  destruct p as [ver alg pt si drc pc ms res hm sm r2 h].
+  pose proof Hr as Hr'. unfold in_range2 in Hr'; revert Hr' Halg; p2_fields.
+  intros (_ & _ & _ & _ & _ & _ & _ & _ & _ & _ & _ & _ & Hh & Lh) Halg.
+  rewrite finish2_fits by assumption. reflexivity.
+Qed.
+
+(* the serialisation of ANY in-range v3 policy naming SHA384 is rejected by the parser *)
+Lemma parse_encode2_sha384 sha3 p : wf_policy2_sha384 p -> parse sha3 (encode2 p) = Err E_UEOF.
+Proof.
+  intros (Hr & Hv & Halg). rewrite parse_encode2_header by assumption.
+  destruct Hr as (_ & _ & _ & _ & _ & _ & _ & _ & _ & _ & _ & _ & Hh & Lh).
+  rewrite (finish2_short sha3 _ _ _ _ _ _ _ _ _ _ _ _ 48); [reflexivity | now rewrite Halg | | lia].
+  intros E. rewrite E in Lh. discriminate.
+Qed.
+
+Lemma dec16s_u16 l : Forall byte l -> Forall u16 (dec16s l).
+Proof.
+  assert (G : forall n l, (length l <= n)%nat -> Forall byte l -> Forall u16 (dec16s l)).
+  { induction n; intros [|a [|b t]] Hl Hb; cbn [dec16s]; try constructor; try (cbn in Hl; lia).
+    - inversion Hb as [|? ? Ha Hb1]; subst. inversion Hb1 as [|? ? Hb' Ht]; subst.
+      unfold u16, byte in *. lia.
+    - inversion Hb as [|? ? Ha Hb1]; subst. inversion Hb1 as [|? ? Hb' Ht]; subst.
+      apply IHn; [cbn in Hl; lia | assumption]. }
+  apply (G (length l)). lia.
+Qed.
+
+Lemma skipn_app_add {A} (a r : list A) n m : length a = n -> skipn (n + m) (a ++ r) = skipn m r.
+Proof.
+  intros <-. rewrite skipn_app, (skipn_all2 a) by lia. cbn [app]. f_equal. lia.
+Qed.
+
+Lemma forallb_zero_repeat l : forallb (Z.eqb 0) l = true -> l = repeat 0 (length l).
+Proof.
+  induction l as [|x t IH]; [reflexivity|]. cbn [forallb length repeat]. intros H.
+  apply andb_prop in H. destruct H as [Hx Ht]. rewrite <- IH by assumption. f_equal. lia.
+Qed.
+
+(** * encode (parse b) = b *)
+Ltac split_off n m l a r :=
+  let H := fresh "S" in
+  destruct (split_at n m l) as (a & r & H & ? & ?); [assumption || lia | subst l].
+
+Ltac forall_apps H :=
+  repeat match type of H with
+         | Forall _ (_ ++ _) => let H1 := fresh "B" in apply Forall_app in H; destruct H as [H1 H]
+         end.
+
+Lemma encode_parse_v2 sha3 b : wf_bytes_v2 b = true ->
+  exists p, parse sha3 b = Ok (inl p) /\ encode1 p = b /\ wf_policy1 p.
+Proof.
+  unfold wf_bytes_v2. intros H.
+  apply andb_prop in H; destruct H as [H Hv]. apply andb_prop in H; destruct H as [Hb Hl].
+  apply forallb_byteb in Hb. apply Nat.eqb_eq in Hl.
+  split_off 2%nat 52%nat b a1 r1. split_off 1%nat 51%nat r1 a2 r2. split_off 1%nat 50%nat r2 a3 r3.
+  split_off 1%nat 49%nat r3 a4 r4. split_off 1%nat 48%nat r4 a5 r5. split_off 16%nat 32%nat r5 a6 r6.
+  split_off 4%nat 28%nat r6 a7 r7. split_off 1%nat 27%nat r7 a8 r8. split_off 1%nat 26%nat r8 a9 r9.
+  split_off 2%nat 24%nat r9 a10 r10. split_off 4%nat 20%nat r10 a11 h.
+  unfold ver_of in Hv. rewrite firstn_app_exact in Hv by assumption.
+  forall_apps Hb.
+  eexists. rewrite parse_dispatch by assumption. rewrite Hv.
+  rewrite <- (app_nil_r h) at 1.
+  rewrite (parse1_app a1 a2 a3 a4 a5 a6 a7 a8 a9 a10 a11 h []) by assumption.
+  cbn [bind]. split; [reflexivity|].
+  destruct (enc16s_dec16s 8 a6) as [E6 L6]; [assumption | assumption |].
+  split.
+  - unfold encode1; cbn [p1_version p1_hashalg p1_ptype p1_sinit p1_reserved p1_drc p1_pc p1_maxsinit p1_res1 p1_res2 p1_res3 p1_hash].
+    rewrite (fix_len_id 8), (fix_len_id 20 h), E6 by assumption.
+    rewrite !le_enc_dec' by assumption. reflexivity.
+  - unfold wf_policy1; cbn [p1_version p1_hashalg p1_ptype p1_sinit p1_reserved p1_drc p1_pc p1_maxsinit p1_res1 p1_res2 p1_res3 p1_hash].
+    repeat match goal with
+    | B : Forall byte ?a, L : length ?a = _ |- context [le_dec ?a] =>
+        let R := fresh "R" in pose proof (le_dec_range a B) as R; rewrite L in R; revert B
+    end. intros.
+    change (256 ^ Z.of_nat 1) with 256 in *. change (256 ^ Z.of_nat 2) with 65536 in *.
+    change (256 ^ Z.of_nat 4) with 4294967296 in *.
+    unfold u16, u32, byte. repeat split; try lia; try assumption.
+    apply dec16s_u16; assumption.
+Qed.
+
+Lemma encode_parse_v3 sha3 b : wf_bytes_v3 b = true ->
+  exists p, parse sha3 b = Ok (inr p) /\ encode2 p = b /\ wf_policy2 p.
+Proof.
+  unfold wf_bytes_v3. intros H.
+  apply andb_prop in H; destruct H as [H Ha]. apply andb_prop in H; destruct H as [H Hv].
+  apply andb_prop in H; destruct H as [Hb Hl].
+  apply forallb_byteb in Hb. apply Nat.eqb_eq in Hl.
+  split_off 2%nat 68%nat b a1 r1. split_off 2%nat 66%nat r1 a2 r2. split_off 1%nat 65%nat r2 a3 r3.
+  split_off 1%nat 64%nat r3 a4 r4. split_off 16%nat 48%nat r4 a5 r5. split_off 4%nat 44%nat r5 a6 r6.
+  split_off 1%nat 43%nat r6 a7 r7. split_off 1%nat 42%nat r7 a8 r8. split_off 2%nat 40%nat r8 a9 r9.
+  split_off 4%nat 36%nat r9 a10 r10. split_off 4%nat 32%nat r10 a11 h.
+  unfold ver_of in Hv. rewrite firstn_app_exact in Hv by assumption.
+  unfold alg_of in Ha. rewrite skipn_app_exact, firstn_app_exact in Ha by assumption.
+  change 58%nat with (2 + (2 + (1 + (1 + (16 + (4 + (1 + (1 + (2 + (4 + (4 + 20)))))))))))%nat in Ha.
+  rewrite !skipn_app_add in Ha by assumption.
+  assert (Halg : le_dec a2 = AlgSHA256 \/ (le_dec a2 = AlgSHA1 /\ skipn 20 h = repeat 0 12)).
+  { apply orb_prop in Ha. destruct Ha as [Ha | Ha]; [left; lia | right].
+    apply andb_prop in Ha. destruct Ha as [Ha Hz]. split; [lia|].
+    rewrite (forallb_zero_repeat _ Hz), skipn_length. replace (length h - 20)%nat with 12%nat by lia. reflexivity. }
+  forall_apps Hb.
+  eexists. rewrite parse_dispatch by assumption.
+  destruct (le_dec a1 <=? LCPPolicyVersion2) eqn:E; [unfold LCPPolicyVersion2, LCPPolicyVersion3 in *; lia|].
+  destruct (le_dec a1 >=? LCPPolicyVersion3) eqn:E3; [|lia].
+  rewrite parse2_header by assumption. rewrite finish2_fits by assumption.
+  cbn [bind]. split; [reflexivity|].
+  destruct (enc16s_dec16s 8 a5) as [E5 L5]; [assumption | assumption |].
+  split.
+  - unfold encode2; p2_fields.
+    rewrite (fix_len_id 8), (fix_len_id 32 h), E5 by assumption.
+    rewrite !le_enc_dec' by assumption. reflexivity.
+  - unfold wf_policy2, in_range2; p2_fields.
+    repeat match goal with
+    | B : Forall byte ?a, L : length ?a = _ |- context [le_dec ?a] =>
+        let R := fresh "R" in pose proof (le_dec_range a B) as R; rewrite L in R; revert B
+    end. intros.
+    change (256 ^ Z.of_nat 1) with 256 in *. change (256 ^ Z.of_nat 2) with 65536 in *.
+    change (256 ^ Z.of_nat 4) with 4294967296 in *.
+    unfold u16, u32, byte. repeat split; try lia; try assumption.
+    apply dec16s_u16; assumption.
+Qed.
+
+(* every 70-byte policy that names SHA384 is rejected *)
+Lemma parse_v3_sha384 sha3 b : wf_bytes_v3_sha384 b = true -> parse sha3 b = Err E_UEOF.
+Proof.
+  unfold wf_bytes_v3_sha384. intros H.
+  apply andb_prop in H; destruct H as [H Ha]. apply andb_prop in H; destruct H as [H Hv].
+  apply andb_prop in H; destruct H as [Hb Hl]. apply Nat.eqb_eq in Hl.
+  split_off 2%nat 68%nat b a1 r1. split_off 2%nat 66%nat r1 a2 r2. split_off 1%nat 65%nat r2 a3 r3.
+  split_off 1%nat 64%nat r3 a4 r4. split_off 16%nat 48%nat r4 a5 r5. split_off 4%nat 44%nat r5 a6 r6.
+  split_off 1%nat 43%nat r6 a7 r7. split_off 1%nat 42%nat r7 a8 r8. split_off 2%nat 40%nat r8 a9 r9.
+  split_off 4%nat 36%nat r9 a10 r10. split_off 4%nat 32%nat r10 a11 h.
+  unfold ver_of in Hv. rewrite firstn_app_exact in Hv by assumption.
+  unfold alg_of in Ha. rewrite skipn_app_exact, firstn_app_exact in Ha by assumption.
+  rewrite parse_dispatch by assumption.
+  destruct (le_dec a1 <=? LCPPolicyVersion2) eqn:E; [unfold LCPPolicyVersion2, LCPPolicyVersion3 in *; lia|].
+  destruct (le_dec a1 >=? LCPPolicyVersion3) eqn:E3; [|lia].
+  rewrite parse2_header by assumption.
+  rewrite (finish2_short sha3 _ _ _ _ _ _ _ _ _ _ _ _ 48); [reflexivity | | | lia].
+  - replace (le_dec a2) with AlgSHA384 by lia. reflexivity.
+  - intros ->. discriminate.
+Qed.
+
+(** * flag words *)
+Lemma flags_pc pc : parse_pc (decon_pc pc) = pc.
+Proof. destruct pc as [[] [] [] []]; reflexivity. Qed.
+Lemma flags_ah a : parse_ah (decon_ah a) = a.
+Proof. destruct a as [[] [] [] []]; reflexivity. Qed.
+Lemma flags_as a : parse_as (decon_as a) = a.
+Proof. destruct a as [[] [] [] [] [] [] []]; reflexivity. Qed.
+
+Lemma decon_pc_range pc : u32 (decon_pc pc).
+Proof. destruct pc as [[] [] [] []]; vm_compute; split; congruence. Qed.
+Lemma decon_ah_range a : u16 (decon_ah a).
+Proof. destruct a as [[] [] [] []]; vm_compute; split; congruence. Qed.
+Lemma decon_as_range a : u32 (decon_as a).
+Proof. destruct a as [[] [] [] [] [] [] []]; vm_compute; split; congruence. Qed.
+
+(* the words contain the SDG bits and nothing else *)
+Definition PC_MASK : Z := 2147483655.  (* 0x80000007 *)
+Definition AH_MASK : Z := 105.         (* 0x0069 *)
+Definition AS_MASK : Z := 78028.       (* 0x000130CC *)
+Lemma decon_pc_mask pc : Z.land (decon_pc pc) PC_MASK = decon_pc pc.
+Proof. destruct pc as [[] [] [] []]; reflexivity. Qed.
+Lemma decon_ah_mask a : Z.land (decon_ah a) AH_MASK = decon_ah a.
+Proof. destruct a as [[] [] [] []]; reflexivity. Qed.
+Lemma decon_as_mask a : Z.land (decon_as a) AS_MASK = decon_as a.
+Proof. destruct a as [[] [] [] [] [] [] []]; reflexivity. Qed.
+
+Lemma flags_inverse (pc : pctrl) (ah : ahash) (sg : asig) :
+  parse_pc (decon_pc pc) = pc /\ parse_ah (decon_ah ah) = ah /\ parse_as (decon_as sg) = sg.
+Proof. split; [apply flags_pc | split; [apply flags_ah | apply flags_as]]. Qed.
+
+Lemma flags_words_defined_bits (pc : pctrl) (ah : ahash) (sg : asig) :
+  (u32 (decon_pc pc) /\ Z.land (decon_pc pc) PC_MASK = decon_pc pc) /\
+  (u16 (decon_ah ah) /\ Z.land (decon_ah ah) AH_MASK = decon_ah ah) /\
+  (u32 (decon_as sg) /\ Z.land (decon_as sg) AS_MASK = decon_as sg).
+Proof.
+  repeat split;
+    first [apply decon_pc_range | apply decon_ah_range | apply decon_as_range
+          | apply decon_pc_mask | apply decon_ah_mask | apply decon_as_mask].
+Qed.
+
+(** * GenLCPPolicyV2 *)
+Definition offered (hashid : Z) : Prop := hashid = CryptoSHA1 \/ hashid = CryptoSHA256 \/ hashid = CryptoSHA384.
+Definition tpm_alg (hashid : Z) : Z :=
+  if hashid =? CryptoSHA1 then AlgSHA1 else if hashid =? CryptoSHA256 then AlgSHA256 else AlgSHA384.
+Definition crypto_size (hashid : Z) : nat :=
+  if hashid =? CryptoSHA1 then 20%nat else if hashid =? CryptoSHA256 then 32%nat else 48%nat.
+
+Definition gen_spec_policy (version hashid : Z) (digest : list Z) (sinit : Z) (pc : pctrl) (ah : ahash) (sg : asig) : policy2 :=
+  MkP2 (Z.max version LCPPolicyVersion3) (tpm_alg hashid) LCPPolicyTypeAny sinit (repeat 0 8%nat)
+       (decon_pc pc) 0 0 (decon_ah ah) (decon_as sg) 0 (fix_len 32 digest).
+
+(* what GenLCPPolicyV2 returns for every offered algorithm, every version, every digest of the matching length *)
+Lemma gen_characterised version hashid digest sinit pc ah sg :
+  offered hashid -> length digest = crypto_size hashid ->
+  gen version hashid digest sinit pc ah sg = Ok (gen_spec_policy version hashid digest sinit pc ah sg).
+Proof.
+  intros Ho Hl. unfold gen, gen_spec_policy.
+  assert (Hm : hash_alg_map hashid = Some (tpm_alg hashid, crypto_size hashid)).
+  { destruct Ho as [-> | [-> | ->]]; reflexivity. }
+  rewrite Hm. unfold gen_lcp_hash.
+  rewrite read_n_exact by (assumption || (destruct Ho as [-> | [-> | ->]]; discriminate)).
+  cbn [bind]. rewrite <- Hl, firstn_all.
+  replace (if version <=? LCPPolicyVersion3 then LCPPolicyVersion3 else version) with (Z.max version LCPPolicyVersion3)
+    by (destruct (version <=? LCPPolicyVersion3) eqn:E; lia).
+  reflexivity.
+Qed.
+
+Lemma fix_len_bytes n l : Forall byte l -> Forall byte (fix_len n l).
+Proof.
+  intros H. unfold fix_len. apply Forall_forall. intros x Hx.
+  assert (Hx' : In x (l ++ repeat 0 n)) by (rewrite <- (firstn_skipn n (l ++ repeat 0 n)); apply in_or_app; now left).
+  clear Hx; rename Hx' into Hx.
+  apply in_app_or in Hx. destruct Hx as [Hx | Hx].
+  - rewrite Forall_forall in H. now apply H.
+  - apply repeat_spec in Hx. subst. unfold byte. lia.
+Qed.
+
+Lemma gen_spec_wf version hashid digest sinit pc ah sg :
+  (hashid = CryptoSHA1 \/ hashid = CryptoSHA256) -> length digest = crypto_size hashid ->
+  u16 version -> byte sinit -> Forall byte digest ->
+  wf_policy2 (gen_spec_policy version hashid digest sinit pc ah sg).
+Proof.
+  intros Ho Hl Hv Hs Hd. unfold wf_policy2, in_range2, gen_spec_policy; p2_fields.
+  pose proof (decon_pc_range pc). pose proof (decon_ah_range ah). pose proof (decon_as_range sg).
+  assert (Forall u16 (repeat 0 8)) by (repeat constructor; unfold u16; lia).
+  assert (u16 (tpm_alg hashid)) by (destruct Ho as [-> | ->]; vm_compute; split; congruence).
+  unfold u16, u32, byte, LCPPolicyVersion3, LCPPolicyTypeAny in *.
+  repeat split; try lia; try assumption; try apply fix_len_length; try (apply fix_len_bytes; assumption).
+  destruct Ho as [-> | ->]; [right | left; reflexivity].
+  split; [reflexivity|]. change (crypto_size CryptoSHA1) with 20%nat in Hl.
+  rewrite fix_len_pad by lia. rewrite skipn_app_exact by assumption. rewrite Hl. reflexivity.
+Qed.
+
+Lemma gen_roundtrip sha3 version hashid digest sinit pc ah sg :
+  (hashid = CryptoSHA1 \/ hashid = CryptoSHA256) -> length digest = crypto_size hashid ->
+  u16 version -> byte sinit -> Forall byte digest ->
+  exists p, gen version hashid digest sinit pc ah sg = Ok p /\ parse sha3 (encode2 p) = Ok (inr p).
+Proof.
+  intros Ho Hl Hv Hs Hd. eexists. split.
+  - apply gen_characterised; [destruct Ho; unfold offered; tauto | assumption].
+  - apply parse_encode2. now apply gen_spec_wf.
+Qed.
+
+Lemma gen_roundtrip_sha384 sha3 version digest sinit pc ah sg :
+  length digest = 48%nat -> u16 version -> byte sinit -> Forall byte digest ->
+  exists p, gen version CryptoSHA384 digest sinit pc ah sg = Ok p /\ parse sha3 (encode2 p) = Err E_UEOF.
+Proof.
+  intros Hl Hv Hs Hd. eexists. split.
+  - apply gen_characterised; [unfold offered; tauto | assumption].
+  - apply parse_encode2_sha384. unfold wf_policy2_sha384, in_range2, gen_spec_policy; p2_fields.
+    pose proof (decon_pc_range pc). pose proof (decon_ah_range ah). pose proof (decon_as_range sg).
+    assert (Forall u16 (repeat 0 8)) by (repeat constructor; unfold u16; lia).
+    change (tpm_alg CryptoSHA384) with AlgSHA384.
+    unfold u16, u32, byte, LCPPolicyVersion3, LCPPolicyTypeAny, AlgSHA384 in *.
+    repeat split; try lia; try assumption; try apply fix_len_length; try (apply fix_len_bytes; assumption).
+Qed.
+
+Lemma gen_carries_params version hashid digest sinit pc ah sg :
+  (hashid = CryptoSHA1 \/ hashid = CryptoSHA256) -> length digest = crypto_size hashid ->
+  LCPPolicyVersion3 <= version ->
+  exists p, gen version hashid digest sinit pc ah sg = Ok p /\
+    p2_version p = version /\ p2_hashalg p = tpm_alg hashid /\
+    p2_hash p = digest ++ repeat 0 (32 - length digest) /\
+    p2_sinit p = sinit /\
+    parse_pc (p2_pc p) = pc /\ parse_ah (p2_hmask p) = ah /\ parse_as (p2_smask p) = sg /\
+    p2_ptype p = LCPPolicyTypeAny /\ p2_drc p = repeat 0 8 /\ p2_maxsinit p = 0 /\ p2_reserved p = 0 /\ p2_res2 p = 0.
+Proof.
+  intros Ho Hl Hv. eexists. split.
+  - apply gen_characterised; [destruct Ho; unfold offered; tauto | assumption].
+  - unfold gen_spec_policy; p2_fields. rewrite flags_pc, flags_ah, flags_as.
+    repeat split; try lia.
+    apply fix_len_pad. destruct Ho as [-> | ->]; rewrite Hl; cbn; lia.
+Qed.
+
+(* all parameters except version < 0x300 and a digest longer than 32 bytes *)
+Lemma gen_carries_other_params version hashid digest sinit pc ah sg :
+  offered hashid -> length digest = crypto_size hashid ->
+  exists p, gen version hashid digest sinit pc ah sg = Ok p /\
+    p2_version p = Z.max version LCPPolicyVersion3 /\ p2_hashalg p = tpm_alg hashid /\
+    p2_hash p = fix_len 32 digest /\ p2_sinit p = sinit /\
+    parse_pc (p2_pc p) = pc /\ parse_ah (p2_hmask p) = ah /\ parse_as (p2_smask p) = sg.
+Proof.
+  intros Ho Hl. eexists. split; [now apply gen_characterised|].
+  unfold gen_spec_policy; p2_fields. rewrite flags_pc, flags_ah, flags_as. repeat split.
+Qed.
+
+(** * witnesses *)
+Definition ex_pc := MkPC true false true false.
+Definition ex_ah := MkAH false true false false.
+Definition ex_as := MkAS false true false true false false false.
+Definition ex_digest48 : list Z := seqZ 1 48.
+Definition ex_digest32 : list Z := seqZ 1 32.
+
+Lemma gen_version_refuted : exists version p,
+  gen version CryptoSHA256 ex_digest32 7 ex_pc ex_ah ex_as = Ok p /\ p2_version p <> version.
+Proof. exists 516. eexists. split; [vm_compute; reflexivity | vm_compute; congruence]. Qed.
+
+Lemma gen_hash_sha384_refuted : exists p,
+  gen 768 CryptoSHA384 ex_digest48 7 ex_pc ex_ah ex_as = Ok p /\
+  p2_hash p = firstn 32 ex_digest48 /\ firstn 48 (p2_hash p) <> ex_digest48.
+Proof.
+  eexists. split; [vm_compute; reflexivity|]. split; [vm_compute; reflexivity|].
+  vm_compute. intros H. discriminate H.
+Qed.
+
+Definition ex_p1 : policy1 := MkP1 516 0 1 2 0 [1;2;3;4;5;6;7;65535] 2147483655 0 0 0 0 (seqZ 11 20).
+Definition ex_p2_sha256 : policy2 := MkP2 768 11 1 7 [0;0;0;0;0;0;0;0] 2147483649 255 255 8 136 8 (seqZ 1 32).
+Definition ex_p2_sha1 : policy2 := MkP2 770 4 0 7 [1;0;0;0;0;0;0;9] 5 0 0 1 4 0 (seqZ 1 20 ++ repeat 0 12).
+Definition ex_p2_sha384 : policy2 := MkP2 768 12 1 0 [0;0;0;0;0;0;0;0] 0 255 255 64 128 8 (seqZ 0 32). (* what txt-prov's loadConfig builds for "SHA384" *)
+
+Ltac wf_tac := repeat match goal with |- _ /\ _ => split | |- Forall _ _ => constructor end;
+  unfold u16, u32, byte, LCPPolicyVersion2, LCPPolicyVersion3; try lia; try reflexivity.
+Lemma ex_p1_wf : wf_policy1 ex_p1. Proof. unfold wf_policy1, ex_p1; cbn -[Z.le Z.lt]. wf_tac. Qed.
+Lemma ex_p2_sha256_wf : wf_policy2 ex_p2_sha256.
+Proof. unfold wf_policy2, in_range2, ex_p2_sha256; cbn -[Z.le Z.lt]. wf_tac. left; reflexivity. Qed.
+Lemma ex_p2_sha1_wf : wf_policy2 ex_p2_sha1.
+Proof. unfold wf_policy2, in_range2, ex_p2_sha1; cbn -[Z.le Z.lt]. wf_tac. right; split; reflexivity. Qed.
+Lemma ex_p2_sha384_wf : wf_policy2_sha384 ex_p2_sha384.
+Proof. unfold wf_policy2_sha384, in_range2, ex_p2_sha384; cbn -[Z.le Z.lt]. wf_tac. Qed.
+
+Lemma ex_bytes_v2_wf : wf_bytes_v2 (encode1 ex_p1) = true. Proof. vm_compute. reflexivity. Qed.
+Lemma ex_bytes_v3_sha256_wf : wf_bytes_v3 (encode2 ex_p2_sha256) = true. Proof. vm_compute. reflexivity. Qed.
+Lemma ex_bytes_v3_sha1_wf : wf_bytes_v3 (encode2 ex_p2_sha1) = true. Proof. vm_compute. reflexivity. Qed.
+Lemma ex_bytes_v3_sha384_wf : wf_bytes_v3_sha384 (encode2 ex_p2_sha384) = true. Proof. vm_compute. reflexivity. Qed.
+
+Lemma parse_encode_sha384_refuted : exists p, wf_policy2_sha384 p /\ parse false (encode2 p) = Err E_UEOF.
+Proof. exists ex_p2_sha384. split; [apply ex_p2_sha384_wf | vm_compute; reflexivity]. Qed.
+
+Lemma encode_parse_sha384_refuted : exists b, wf_bytes_v3_sha384 b = true /\ parse false b = Err E_UEOF.
+Proof. exists (encode2 ex_p2_sha384). split; vm_compute; reflexivity. Qed.
+
+(* a SHA1 policy whose 12 padding bytes are not zero parses, but does not re-serialise to itself:
+   the zero-padding clause of wf_bytes_v3 is needed *)
+Definition ex_bytes_sha1_dirty : list Z := firstn 69 (encode2 ex_p2_sha1) ++ [1].
+Lemma encode_parse_nonzero_padding_refuted : exists p,
+  length ex_bytes_sha1_dirty = 70%nat /\ parse false ex_bytes_sha1_dirty = Ok (inr p) /\ encode2 p <> ex_bytes_sha1_dirty.
+Proof.
+  eexists. split; [reflexivity|]. split; [vm_compute; reflexivity|]. vm_compute. intros H. discriminate H.
+Qed.
